@@ -297,7 +297,7 @@ func TestC14(t *testing.T) {
 					}
 					c.KeyDER = buildECPKCS8(cv, d, ecEnc{OuterCurve: true, InnerCurve: true, Public: true})
 				case 2:
-					c.KeyDER = buildECPKCS8(cv, d, ecEnc{InnerCurve: true, Public: rapid.Bool().Draw(t, "pub")})
+					c.KeyDER = buildECPKCS8(cv, d, ecEnc{InnerCurve: true, Public: rapid.Bool().Draw(t, "pub"), Compressed: rapid.Bool().Draw(t, "compressed")})
 				default:
 					l := len(d.Bytes())
 					if rapid.Bool().Draw(t, "padded") {
